@@ -19,7 +19,9 @@ def check(run):
             return v.key != "generator-shape"
         if v.vc == "V4" and (v.key in ("pop-condition", "pop-before-shift", "pop-keeps-dend") or v.key.startswith("inside-context")):
             return True
-        if v.vc == "V8" and v.key in ("decoded-arm/dend", "context-arm/dend"):
+        if v.vc == "V8" and v.key not in ("decoded-arm/recurse-on-hit",):
+            # every kept hit is either decoded (DEND := its ABS end) or becomes the open context: both are needed for
+            # "a later hit inside it is suppressed or nested, never a sibling"
             return True
         if v.vc == "V10" and v.key.startswith("role-"):
             return True
@@ -28,4 +30,4 @@ def check(run):
     run.floor("V2", 2)
     run.floor("V3", 4)
     run.floor("V4", 4)
-    run.floor("V8", 2)
+    run.floor("V8", 8)
